@@ -68,6 +68,40 @@ func genC08(e *emitter, tier string, seed uint64) {
 				}
 			}
 		}
+		// re-encoding opcodes (BIN2NUM, NUM2BIN) over the whole family of padded / folded / minimal number shapes:
+		// magnitude x zero padding x sign placement, each aliased by the caller's script and by a DUP twin
+		var numShapes [][]byte
+		for _, mag := range [][]byte{{0x01}, {0x7f}, {0x80}, {0xff}, {0x00, 0x01}, {0x00, 0x80}, {0xff, 0x7f}, {0xff, 0xff}, {0x34, 0x12, 0x80}} {
+			for pad := 0; pad <= 3; pad++ {
+				for _, neg := range []bool{false, true} {
+					b := append([]byte{}, mag...)
+					for i := 0; i < pad; i++ {
+						b = append(b, 0x00)
+					}
+					if neg {
+						if pad > 0 || b[len(b)-1]&0x80 != 0 {
+							if pad == 0 {
+								b = append(b, 0x80)
+							} else {
+								b[len(b)-1] = 0x80
+							}
+						} else {
+							b[len(b)-1] |= 0x80
+						}
+					}
+					numShapes = append(numShapes, b)
+				}
+			}
+		}
+		for _, x := range numShapes {
+			for _, dw := range dupWords[:2] {
+				ixExec(e, era, rawPush(x), append(append([]byte{}, dw.code...), 0x81))
+				for _, n := range []int{len(x), len(x) + 1, len(x) + 3} {
+					ixExec(e, era, rawPush(x), append(append(append([]byte{}, dw.code...), rawPush(numBytes(n))...), 0x80))
+				}
+				e.note("alias.reencode-family")
+			}
+		}
 		// both halves of SPLIT: transform one half, inspect the other
 		for _, op := range ops {
 			for _, x := range shapes {
